@@ -228,3 +228,83 @@ def same_object(r1, r2):
     if o1.kind == "local":
         return o1.ref == o2.ref
     return False
+
+
+INF = float("inf")
+
+
+def call_count_range(prog, fn, pred, stop_block=None, _stack=()):
+    """(min, max) number of calls satisfying `pred(call)` on any CFG path of `fn` from entry to
+    `stop_block` (exclusive; default: any return), inlining resolved workspace callees.
+    max = inf when a counted call sits on a cycle."""
+    weights = {}
+    for c in fn.calls:
+        if pred(c):
+            weights[c.bb] = (1, 1)
+            continue
+        tg = prog.call_targets(c)
+        if len(tg) == 1 and tg[0] not in _stack and tg[0] != fn.id:
+            callee = prog.fns[tg[0]]
+            w = call_count_range(prog, callee, pred, None, _stack + (fn.id,))
+            if w != (0, 0):
+                weights[c.bb] = w
+        elif len(tg) > 1:
+            ws = [call_count_range(prog, prog.fns[t], pred, None, _stack + (fn.id,)) for t in tg if t not in _stack and t != fn.id]
+            if ws:
+                w = (min(x[0] for x in ws), max(x[1] for x in ws))
+                if w != (0, 0):
+                    weights[c.bb] = w
+    if stop_block is None:
+        targets = set(fn.return_blocks())
+    else:
+        targets = {stop_block}
+    # blocks that can reach a target
+    can = set()
+    for b in fn.live_blocks:
+        if b in targets or (fn.reachable_from(b) & targets):
+            can.add(b)
+    if 0 not in can:
+        return (0, 0)
+    loops = fn.loop_blocks()
+    memo = {}
+
+    def go(b, onpath):
+        if b in targets and stop_block is not None:
+            return (0, 0)
+        if b in memo:
+            return memo[b]
+        w = weights.get(b, (0, 0))
+        if b in loops and w[1] > 0:
+            w = (w[0], INF)
+        if b in targets:
+            memo[b] = w
+            return w
+        best = None
+        for s in fn.succ[b]:
+            if s not in can or s in onpath:
+                continue
+            r = go(s, onpath | {b})
+            best = r if best is None else (min(best[0], r[0]), max(best[1], r[1]))
+        if best is None:
+            best = (0, 0)
+        res = (w[0] + best[0], w[1] + best[1])
+        memo[b] = res
+        return res
+
+    return go(0, frozenset())
+
+
+def closure_consumer(prog, closure_fn):
+    """The call in the parent function that receives closure `closure_fn` as an argument:
+    returns (parent_fn, Call, arg_index) or None."""
+    parent = prog.fns.get(closure_fn.parent)
+    if parent is None:
+        return None
+    for c in parent.calls:
+        for i, a in enumerate(c.args):
+            for o in parent.trace_operand(a):
+                if o.kind == "agg" and o.ref[2][1].get("def") == closure_fn.id:
+                    return parent, c, i
+                if o.kind == "const" and o.ref.get("closure") == closure_fn.id:
+                    return parent, c, i
+    return None
